@@ -77,7 +77,16 @@ def check(model, rep, rule, key, param=None, why=''):
     if not ps:
         raise AnalysisError(f'{key}: no returning path found')
     n = 0
+    from sa.astutil import deep_resolved
+
+    def expand(text):
+        # a fact about a local that merely names len(x) / x.size is a fact about the input
+        try:
+            return src(deep_resolved(f.node, ast.parse(text, mode='eval').body))
+        except SyntaxError:
+            return text
     for p, idx, facts in ps:
+        facts = {**facts, **{expand(k): v for k, v in facts.items()}}
         ret = p.events[idx].node
         before = p.events[:idx]
         read = any(e.kind == 'FULLREAD' for e in before) or any(e.kind == 'cond' and full_reads(e.node, name) for e in before) \
